@@ -16,6 +16,33 @@ def run(ctx):
     common.proof_stage(ctx, MODULE, common.theorems_of(MODULE))
     common.setup_impl_path()
     codecleaf.leaf_correspondence(ctx)
+    # translated volume size counters vs the real methods (validates the translator on procedures)
+    from pycdlib import headervd
+    rows = []
+    for _ in range(300):
+        sp, lbs = ctx.rng.randrange(0, 1 << 31), ctx.rng.choice([2048, 512, 4096])
+        nb = ctx.rng.choice([0, 1, lbs - 1, lbs, lbs + 1, ctx.rng.randrange(0, 1 << 33)])
+        vd = headervd.PrimaryOrSupplementaryVD(1)
+        vd._initialized = True
+        vd.space_size, vd.log_block_size = sp, lbs
+        vd.add_to_space_size(nb)
+        a1 = vd.space_size
+        vd.space_size = sp
+        vd.remove_from_space_size(nb)
+        rows.append('(%s, %s, %s, %s, %s)' % (common.z(sp), common.z(lbs), common.z(nb), common.z(a1), common.z(vd.space_size)))
+        ctx.case(('spacecnt', lbs, nb % lbs == 0), True)
+    bad, err = common.coq_bad_cases('c05space', ['From PV.Gen Require Import GenFun GenObj.'],
+                                    ['Fixpoint sp_bad (k : nat) (cs : list (Z * Z * Z * Z * Z)) : list nat := match cs with [] => [] | (s, l, n, a, r) :: t => '
+                                     'if (vd_add_to_space_size s l n =? a) && (vd_remove_from_space_size s l n =? r) then sp_bad (S k) t else k :: sp_bad (S k) t end.'],
+                                    '(Z * Z * Z * Z * Z)', rows, 'sp_bad 0', shard=300)
+    name = 'translated add_to_space_size / remove_from_space_size vs the Python methods'
+    if bad is None:
+        ctx.broken.append({'name': 'correspondence:' + name, 'summary': 'evaluation failed: ' + err})
+    else:
+        ctx.cov['traces_validated_against_impl'] += len(rows) - len(bad)
+        ctx.cov['correspondences'][name] = {'cases': len(rows), 'disagreements': len(bad)}
+        for i in bad[:2]:
+            ctx.broken.append({'name': 'correspondence:' + name, 'summary': 'translation disagrees with the Python method', 'coq_case': rows[i]})
     quick = ctx.tier == 'quick'
     sysprops.run_oracle(ctx, 'C05', sysprops.histories(ctx, 200 if quick else 3000, RECIPES,
                                                        dict(allow_refusals=False, fat_dir=0.15, long_rr=0.1, empty_bias=0.3),
